@@ -27,11 +27,14 @@ def protocol_violations(results, status, stats=None):
     for i, rr in enumerate(results):
         if rr.kind != "incremental":
             continue
-        if rr.protocol_error is not None:
-            pe = rr.protocol_error
+        seen_pe = set()
+        for pe in rr.monitor.protocol_errors:
+            if (pe.rule, pe.what) in seen_pe:
+                continue
+            seen_pe.add((pe.rule, pe.what))
             vs.append(Violation(PROP, "protocol", {"rule": pe.rule, "what": pe.what, "world": "W1"},
                                 {"request": i, "detail": pe.detail, "payloads": rr.payloads[-4:]}))
-        elif not rr.ended and not rr.stopped and rr.error is None:
+        if not rr.ended and not rr.stopped and rr.error is None:
             mon = rr.monitor
             vs.append(Violation(PROP, "no_termination",
                                 {"waiting": rr.waiting, "world": "W1"},
@@ -74,7 +77,7 @@ def run_unit(seed=None, unit=None, tier="quick", stats=None):
         st = (Tape(values=sched_values[r]) if sched_values is not None
               else Tape((seed, "sched", r)))
         sched_tapes.append(st)
-        sim, reqs, results, status, knobs, al, _stops = run_incremental(scn, st)
+        sim, reqs, results, status, knobs, al, _stops = run_incremental(scn, st, lenient=True)
         bump(stats, "counts", "w1_execs", len(reqs))
         account(stats, sim, knobs, al, results)
         vs = protocol_violations(results, status, stats)
